@@ -96,9 +96,10 @@ def conform_groups(ctx, scheds, runs, name):
 def generate(ctx, d, quick):
     scheds, labels = [], []
     for dev, (inv, bs, ts) in sorted(DEVIATIONS.items()):
-        h, r = T.counterexample_hist(ctx, d, "MC_Snapshot.tla", "Dev_Snapshot_%s.cfg" % dev, timeout=600)
+        # workers=1: breadth-first with one worker returns the same (shortest) counterexample on every run
+        h, r = T.counterexample_hist(ctx, d, "MC_Snapshot.tla", "Dev_Snapshot_%s.cfg" % dev, timeout=600, workers=1)
         if h is None or inv not in r.violated:
-            raise Broken("deviation %s no longer violates %s in the model (vacuous deviation)" % (dev, inv))
+            raise Broken("deviation %s does not violate %s in the model (vacuous deviation, or TLC failed):\n%s" % (dev, inv, r.out[-1500:]))
         scheds.append({"brokers": bs, "topics": ts, "steps": h}); labels.append("dev:" + dev)
     n = 100 if quick else 600
     hs, _ = T.simulate_hists(ctx, d, "MC_Snapshot.tla", "Sim_Snapshot.cfg", num=n, depth=40, seed=ctx.seed, timeout=900)
